@@ -1,6 +1,6 @@
 (* C07 proofs, part 11: the conditional operator ( '?' takes ':' as its second operand; assign counter reset ). *)
 From Coq Require Import List NArith Bool Arith Lia.
-From CV Require Import Ast.Defs Ast.Basics Ast.Ctx Ast.Stage1.
+From CV Require Import Ast.Defs Ast.Frag Ast.Basics Ast.Ctx Ast.Stage1.
 Import ListNotations.
 
 Lemma quiet_q : forall cpp r b a l rest, r < 14 -> quiet cpp r b a ((l, TQ) :: rest).
